@@ -136,7 +136,12 @@ def replay_case(case, tag, rng, tier):
         else:
             out["skipped"][skip] = out["skipped"].get(skip, 0) + 1
 
-    args, objs = construct(case, pose, num)
+    built, exc = call(construct, case, pose, num)
+    if exc is not None:
+        bad("C20.construct", "the session objects could not be constructed: %s at %s" % (exc["cls"], exc["site"]), None)
+        return out
+    args, objs = built
+    cfg0 = (G.get_eps(), G.get_sig_figures())
     cur = [h for h in case["heap0"]]
     copies = []
     for n, e in enumerate(hist):
@@ -151,6 +156,12 @@ def replay_case(case, tag, rng, tier):
             changed = [k for k in range(len(objs)) if snap(objs[k]) != before_o[k]] + [100 + k for k in range(len(args)) if snap(args[k]) != before_a[k]]
             if changed:
                 bad("C20.pure", "query changed observable state of objects %r" % changed, n, {"kinds": [cur[i]["k"], cur[j]["k"]]})
+        if (G.get_eps(), G.get_sig_figures()) != cfg0:
+            bad("C20.pure_config", "the step changed the global tolerance to eps=%r sig=%r" % (G.get_eps(), G.get_sig_figures()), n,
+                {"kinds": [cur[e["i"] - 1]["k"], cur[e["j"] - 1]["k"]] if e["act"] == "Query" else []})
+            G.set_eps()
+        if e["act"] == "Query":
+            pass
         elif e["act"] == "Move":
             i = e["id"] - 1
             ret, exc = call(objs[i].move, vec(e["v"], pose, num))
